@@ -873,7 +873,7 @@ pub fn run(ctx: &mut Ctx) {
         }
     }
     ctx.run_regressions::<Attribution>();
-    ctx.run::<Attribution>(ctx.tier.pick(6_300, 210_000));
+    ctx.run::<Attribution>(ctx.tier.pick(63_000, 1_050_000));
 }
 
 pub fn replay(ctx: &mut Ctx, doc: &Value) -> bool {
